@@ -28,7 +28,7 @@ type c01 struct{}
 func (c01) ID() string    { return "C01" }
 func (c01) Level() string { return "exploration" }
 func (c01) Rule() string {
-	return "(a) every attribute path of the schema (read from /repo/schema/compose-spec.json at run time) (plus the keys the code singles out below user-keyed mappings, read from path patterns in the sources of /repo) x 21 YAML node kinds (incl. two lists repeating their keys, an integral float, integers beyond int64 / uint32, a negative integer) placed at that path, as a single file, as a second document, as an override of the valid witness, as the base under a valid override, in an extended base, in an included file, and against the full corpus document as override / overridden / extending / extended / including / included; every pair of kinds as (base, override) and as (base service, service extending it in the same file) at the same path; the single-file matrix through loader.LoadModelWithContext, cli LoadProject and cli LoadModel; every scalar leaf of 8 full corpus documents replaced by 10 node kinds; the tags !reset / !override on 6 node shapes at every path and at the document root (single file, override of the full document, second document); (b) the single-file matrix under each of 10 load options flipped alone and all together (thorough: more option sets); (b') every pair of valid service attribute values of the three full corpus documents (whole, and cut down to each single child / grandchild of a mapping) on one service; (c) YAML alias/anchor cycles and merge keys, extends, include (every syntactic form of every edge incl. multi-path entries; 7 path spellings - relative, bare, through another directory, absolute, absolute with ., .. or // - of every edge of cycles of length 1..2; every load carries a listener that reports more than 5000 include/extends events as unbounded recursion) and depends_on cycles; (d) every {present, absent, directory-in-place} state vector of the files referenced by 5 scenarios, through the loader and through the cli entry point (override, extends chain, nested include with env files, env_file/label_file, cli .env); (e) every distance-1 byte edit (delete, insert/replace by 18 significant bytes) of 6 seed documents. Oracle: exactly one of project/error, no panic, no process death, no hang; cycles and missing required files are errors naming the file. distinct = distinct (position, kind, route, options) outcomes"
+	return "(a) every attribute path of the schema (read from /repo/schema/compose-spec.json at run time) (plus the keys the code singles out below user-keyed mappings, read from path patterns in the sources of /repo) x 21 YAML node kinds (incl. two lists repeating their keys, an integral float, integers beyond int64 / uint32, a negative integer) placed at that path, as a single file, as a second document, as an override of the valid witness, as the base under a valid override, in an extended base, in an included file, and against the full corpus document as override / overridden / extending / extended / including / included; every pair of kinds as (base, override) and as (base service, service extending it in the same file) at the same path; the single-file matrix through loader.LoadModelWithContext, cli LoadProject and cli LoadModel; every scalar leaf of 8 full corpus documents replaced by 10 node kinds; every file-naming attribute pointed at 6 shapes of symbolic link (file, directory, dangling, self, loop, chain into a loop); the tags !reset / !override on 6 node shapes at every path and at the document root (single file, override of the full document, second document); (b) the single-file matrix under each of 10 load options flipped alone and all together (thorough: more option sets); (b') every pair of valid service attribute values of the three full corpus documents (whole, and cut down to each single child / grandchild of a mapping) on one service; (c) YAML alias/anchor cycles and merge keys, extends, include (every syntactic form of every edge incl. multi-path entries; 7 path spellings - relative, bare, through another directory, absolute, absolute with ., .. or // - of every edge of cycles of length 1..2; every load carries a listener that reports more than 5000 include/extends events as unbounded recursion) and depends_on cycles; (d) every {present, absent, directory-in-place} state vector of the files referenced by 5 scenarios, through the loader and through the cli entry point (override, extends chain, nested include with env files, env_file/label_file, cli .env); (e) every distance-1 byte edit (delete, insert/replace by 18 significant bytes) of 6 seed documents. Oracle: exactly one of project/error, no panic, no process death, no hang; cycles and missing required files are errors naming the file. distinct = distinct (position, kind, route, options) outcomes"
 }
 func (c01) Assumptions() []string {
 	return []string{
@@ -439,6 +439,7 @@ func (c01) Run(c *core.Ctx) {
 	}
 	c01entryPoints(c, paths)
 	c01corpusLeaves(c)
+	c01symlinks(c)
 	c01tags(c, paths)
 	c01validPairs(c)
 	c01cycles(c)
@@ -446,6 +447,51 @@ func (c01) Run(c *core.Ctx) {
 	c01refcycles(c)
 	c01files(c)
 	c01bytes(c)
+}
+
+// c01symlinks: every attribute that names a local file or directory, pointed at a symbolic link of every shape (to a
+// file, to a directory, dangling, to itself, two links to each other, a link below a looping link): a project or an
+// error, never a hang or a crash.
+func c01symlinks(c *core.Ctx) {
+	attrs := []struct{ name, doc string }{
+		{"env_file", "services:\n  s:\n    image: i\n    env_file: [./LINK]\n"},
+		{"env_file-optional", "services:\n  s:\n    image: i\n    env_file:\n      - {path: ./LINK, required: false}\n"},
+		{"label_file", "services:\n  s:\n    image: i\n    label_file: [./LINK]\n"},
+		{"build.context", "services:\n  s:\n    build: {context: ./LINK}\n"},
+		{"bind", "services:\n  s:\n    image: i\n    volumes: [\"./LINK:/t\"]\n"},
+		{"watch", "services:\n  s:\n    image: i\n    develop:\n      watch:\n        - {action: sync, path: ./LINK, target: /t}\n"},
+		{"watch-below", "services:\n  s:\n    image: i\n    develop:\n      watch:\n        - {action: rebuild, path: ./LINK/src}\n"},
+		{"secret.file", "services:\n  s:\n    image: i\nsecrets:\n  x: {file: ./LINK}\n"},
+		{"config.file", "services:\n  s:\n    image: i\nconfigs:\n  x: {file: ./LINK}\n"},
+		{"extends.file", "services:\n  s:\n    extends: {file: ./LINK, service: b}\n"},
+		{"include", "include:\n  - ./LINK\nservices:\n  s:\n    image: i\n"},
+		{"include.project_directory", "include:\n  - path: ./inc.yaml\n    project_directory: ./LINK\nservices:\n  s:\n    image: i\n"},
+		{"include.env_file", "include:\n  - path: ./inc.yaml\n    env_file: ./LINK\nservices:\n  s:\n    image: i\n"},
+	}
+	shapes := []struct {
+		name  string
+		files map[string]string
+	}{
+		{"to-file", map[string]string{"LINK": SymlinkTo + "real.yaml"}},
+		{"to-dir", map[string]string{"LINK": SymlinkTo + "realdir", "realdir/src/": ""}},
+		{"dangling", map[string]string{"LINK": SymlinkTo + "nowhere"}},
+		{"self", map[string]string{"LINK": SymlinkTo + "LINK"}},
+		{"two-loop", map[string]string{"LINK": SymlinkTo + "LINK2", "LINK2": SymlinkTo + "LINK"}},
+		{"chain-into-loop", map[string]string{"LINK": SymlinkTo + "mid", "mid": SymlinkTo + "LINK2", "LINK2": SymlinkTo + "mid"}},
+	}
+	for _, a := range attrs {
+		for _, sh := range shapes {
+			a, sh := a, sh
+			id := "symlink/" + a.name + "/" + sh.name
+			c.Do(id, func() core.Outcome {
+				files := map[string]string{"compose.yaml": a.doc, "real.yaml": "services:\n  b:\n    image: b\n", "inc.yaml": "services:\n  inc:\n    image: i\n"}
+				for k, v := range sh.files {
+					files[k] = v
+				}
+				return c01total(id, &Scn{Files: files, Main: []string{"compose.yaml"}}, "default")
+			})
+		}
+	}
 }
 
 // c01corpusLeaves: every scalar leaf of the full corpus documents replaced by a node of another kind: the leaf keeps
